@@ -10,46 +10,108 @@ open Gen
 theorem field_names_distinct (reg : Registry) (scope : List Path) (stmts : List (Nat × G.Stmt)) (sa : StmtAcc)
     (h : Res.foldlM (stmtStep reg scope) {} stmts = .ok sa) :
     (sa.pending.filterMap (·.2.name)).Nodup := by
-  sorry
+  exact (pendingOk_loop reg scope stmts sa h).1
 
 /-- E0424: every virtual function of an accepted type has a receiver -/
 theorem vfuncs_have_receiver (reg : Registry) (scope : List Path) (acc acc' : StmtAcc) (idx : Nat) (st : G.Stmt)
     (fns : List G.Func) (hf : st.field = .vftable fns) (h : stmtStep reg scope acc (idx, st) = .ok acc') :
     ∀ f ∈ fns, hasReceiver f = true := by
-  sorry
+  intro f hfm
+  unfold stmtStep at h
+  simp only [hf] at h
+  split at h
+  · cases h
+  · split at h
+    · cases h
+    · rename_i hany
+      have hfalse := List.any_eq_false.mp (Bool.eq_false_iff.mpr hany) f hfm
+      simp only [Bool.not_eq_true, Bool.not_eq_false'] at hfalse
+      exact hfalse
 
 /-- base fields are named (the accessor and the forwarders refer to them by name) -/
 theorem base_fields_named (reg : Registry) (scope : List Path) (stmts : List (Nat × G.Stmt)) (sa : StmtAcc)
     (h : Res.foldlM (stmtStep reg scope) {} stmts = .ok sa) :
     ∀ p ∈ sa.pending, p.2.isBase = true → p.2.name.isSome = true := by
-  sorry
+  exact (pendingOk_loop reg scope stmts sa h).2
 
 /-- E0084, E0081, E0428: an accepted enum has at least one case, and its cases have pairwise distinct
     names and pairwise distinct values -/
 theorem enum_cases_distinct (s : State) (p : Path) (d : G.EnumDef) (r : Resolved) (h : buildEnum s p d = .ok r) :
     ∃ ed, r.inner = .enum ed ∧ ed.fields ≠ [] ∧ (ed.fields.map (·.1)).Nodup ∧ (ed.fields.map (·.2)).Nodup := by
-  sorry
+  obtain ⟨range, acc, ed, hne, hacc, hinner, hfields⟩ := buildEnum_cases s p d r h
+  have hinv : CasesOk acc :=
+    foldlM_inv (enumStmtStep range) CasesOk (casesOk_step range) d.stmts {} acc
+      ⟨List.nodup_nil, List.nodup_nil⟩ hacc
+  have hlen := enum_fields_length range d.stmts {} acc hacc
+  refine ⟨ed, hinner, ?_, ?_, ?_⟩
+  · intro he
+    rw [hfields] at he
+    rw [he] at hlen
+    cases hs : d.stmts with
+    | nil => simp [hs] at hne
+    | cons a as => simp [hs] at hlen
+  · rw [hfields]; exact hinv.1
+  · rw [hfields]; exact hinv.2
 
 /-- E0589: the alignment written into `repr(C, align(N))` is a power of two -/
 theorem align_is_pow2 {β} (ps : Nat) (align? : Option Nat) (rs : List (Layout.Placed β)) (size a : Nat)
     (h : Layout.alignCheck ps false align? rs size = .ok a) : ∃ k, a = 2 ^ k := by
-  sorry
+  unfold Layout.alignCheck at h
+  simp only [Bool.false_eq_true, if_false] at h
+  split at h
+  · cases h
+  · rename_i hp
+    have hp2 : Layout.isPow2 (Layout.requestedAlign ps align? rs) = true := by
+      simpa using hp
+    split at h
+    · split at h
+      · cases h
+      · split at h
+        · split at h
+          · cases h
+          · split at h
+            · cases h
+            · cases h
+              unfold Layout.isPow2 at hp2
+              simp only [Bool.and_eq_true, bne_iff_ne, ne_eq, beq_iff_eq] at hp2
+              exact ⟨_, hp2.2.symm⟩
+        all_goals cases h
+    all_goals cases h
 
 /-- E0204: whenever `Copy` is derived, `Clone` is derived too -/
 theorem copy_implies_clone (attrs : List G.Attr) (h : "Copy" ∈ C17.specDerives attrs) : "Clone" ∈ C17.specDerives attrs := by
-  sorry
+  unfold C17.specDerives at h ⊢
+  cases hc : C17.hasIdent attrs "copyable" <;> cases hl : C17.hasIdent attrs "cloneable" <;>
+    cases hd : C17.hasIdent attrs "defaultable" <;> simp [hc, hl, hd] at h ⊢
 
 /-- E0277: in an accepted `defaultable` type no field is a pointer or function pointer, and every field
     type that is already resolved is itself defaultable -/
 theorem defaultable_fields (reg : Registry) (regions : List Region) (h : checkDefaultable reg regions = .ok ()) :
     ∀ r ∈ regions, ∃ p item, defaultablePath r.ty = some p ∧ reg.get p = some item ∧
       ∀ res, item.state = .res res → res.inner.defaultable = true := by
-  sorry
+  intro r hr
+  unfold checkDefaultable at h
+  have hstep := foldlM_unit_ok _ regions h r hr
+  split at hstep
+  · cases hstep
+  · rename_i p hp
+    split at hstep
+    · cases hstep
+    · rename_i item hitem
+      refine ⟨p, item, hp, hitem, ?_⟩
+      intro res hres
+      have hres' : item.resolved? = some res := by simp [ItemDef.resolved?, hres]
+      rw [hres'] at hstep
+      simp only at hstep
+      split at hstep
+      · cases hstep
+      · rename_i hd
+        simpa using hd
 
 /-- E0412 / E0433: every item path mentioned by a resolved type expression is an existing definition,
     so the fully qualified path pyxis prints for it resolves -/
 theorem printed_paths_exist (reg : Registry) (scope : List Path) (g : G.Ty) (t : DTy)
     (h : reg.resolveTy scope g = .ok t) : ∀ p ∈ rawPaths t, reg.contains p = true := by
-  sorry
+  exact resolveTy_paths reg scope g t h
 
 end PyxisVerif.C13
